@@ -355,12 +355,7 @@ def json_cases():
 # instances of that equation the obligations need (a z3 RecFunction made the proof of the loop exit go `unknown`).  Proofs are sound (they hold for
 # every function satisfying the instances); a counter-model may interpret esc_run freely beyond the supplied instances, so a refutation of this
 # contract counts only once the real function disagrees with the natively computed spec on a concrete string (ClosingQuote.replay).
-esc_run = Function('esc_run', StringSort(), StringSort(), IntSort(), IntSort())
-
-
-def esc_run_def(t, e, i):
-    """the defining equation of esc_run at index i, as an explicit instance"""
-    return esc_run(t, e, i) == If(And(i >= 0, i < Length(t), SubString(t, i, 1) == e), 1 + esc_run(t, e, i - 1), 0)
+from ..strmodels import esc_run, esc_run_def
 
 
 class ClosingQuote(FnCase):
